@@ -117,12 +117,39 @@ def is_clock_call(e: ast.AST) -> bool:
     )
 
 
+DEADLINE_ATTRS: set = set()  # attributes proved to hold start_time + time_limit (filled by derived_deadline_attrs)
+
+
+def derived_deadline_attrs(tree, cls) -> set:
+    """Attributes D of the interpreter class with an assignment `self.D = self.start_time + self.time_limit`
+    (either order): a cached absolute deadline.  Whether D is kept in step with start_time is a rule of its own
+    (C01-R9)."""
+    out = set()
+    for m in cls.all_methods:
+        for n in m.own_nodes():
+            if isinstance(n, ast.Assign) and isinstance(n.value, ast.BinOp) and isinstance(n.value.op, ast.Add):
+                a, b = norm(n.value.left), norm(n.value.right)
+                if {a, b} == {"self.start_time", "self.time_limit"}:
+                    for t in n.targets:
+                        if isinstance(t, ast.Attribute) and norm(t.value) == "self":
+                            out.add(t.attr)
+    DEADLINE_ATTRS.clear()
+    DEADLINE_ATTRS.update(out)
+    return out
+
+
 def elapsed_compare(e: ast.AST, start_attr: str = "start_time", limit_attr: str = "time_limit") -> bool:
-    """e is `clock() - X.start_time > X.time_limit` (or >=), or the deadline form
-    `clock() > X.start_time + X.time_limit`."""
+    """e is `clock() - X.start_time > X.time_limit` (or >=), the deadline form
+    `clock() > X.start_time + X.time_limit`, or `clock() > X.D` for a derived deadline attribute D; a conjunction
+    `X.D is not None and <such a comparison>` counts too."""
+    if isinstance(e, ast.BoolOp) and isinstance(e.op, ast.And):
+        rest = [v for v in e.values if not (isinstance(v, ast.Compare) and isinstance(v.ops[0], ast.IsNot) and isinstance(v.left, ast.Attribute) and v.left.attr in DEADLINE_ATTRS | {limit_attr})]
+        return len(rest) == 1 and elapsed_compare(rest[0], start_attr, limit_attr)
     if not (isinstance(e, ast.Compare) and len(e.ops) == 1 and isinstance(e.ops[0], (ast.Gt, ast.GtE))):
         return False
     l, r = e.left, e.comparators[0]
+    if is_clock_call(l) and isinstance(r, ast.Attribute) and r.attr in DEADLINE_ATTRS:
+        return True
 
     def is_attr(x, attr):
         return isinstance(x, ast.Attribute) and x.attr == attr
